@@ -501,6 +501,18 @@ func (ctrler *GovCtrler) GetGovParams() ctrlertypes.GovParams {
 	return ctrler.GovParams
 }
 
+// GovParamsAt returns the governance parameters committed at the block `height`.
+func (ctrler *GovCtrler) GovParamsAt(height int64) (*ctrlertypes.GovParams, xerrors.XError) {
+	ctrler.mtx.RLock()
+	defer ctrler.mtx.RUnlock()
+
+	atledger, xerr := ctrler.paramsLedger.ImmutableLedgerAt(height, 0)
+	if xerr != nil {
+		return nil, xerr
+	}
+	return atledger.Read(ledger.ToLedgerKey(abytes.ZeroBytes(32)))
+}
+
 func (ctrler *GovCtrler) ReadAllProposals() ([]*proposal.GovProposal, xerrors.XError) {
 	ctrler.mtx.RLock()
 	defer ctrler.mtx.RUnlock()
